@@ -204,6 +204,12 @@ PROPS = {
     "C34": graphprop("Channels", "Channels", ["MC_Channels_oneshot.cfg", "MC_Channels_mpsc.cfg", "MC_Channels_notification.cfg"],
                      ["poll:value", "poll:pending", "poll:disconnected", "drop:last-sender"],
                      "channels driven through the cfg(dust_dds_verif) re-export; every operation of the code is one critical section"),
+    "C28": graphprop("WriterInst", "WriterInst", ["MC_WriterInst.cfg"],
+                     ["register:new", "register:idempotent", "register:not-enabled", "register:keyless", "unregister:unknown",
+                      "unregister:registered", "unregister:keyless", "unregister:not-enabled", "dispose:unknown", "dispose:registered",
+                      "dispose:keyless", "dispose:not-enabled", "write:implicit-registration", "write:not-enabled",
+                      "lookup:registered", "lookup:unknown", "lookup:not-enabled", "enable"],
+                     "DataWriterAsync on a keyed and a keyless type, created enabled or not enabled, driven inside the deterministic simulation"),
     "C36": graphprop("Entities", "Entities", ["MC_Entities.cfg"],
                      ["delete:not-empty", "delete:topic-in-use", "delete:already-deleted", "use:deleted-entity", "delete-contained",
                       "delete:wrong-parent", "create:parent-deleted"],
